@@ -150,6 +150,18 @@ def fixed_probes():
     add("readonly", "no write through a shared slice", "    let mut v = make();\n    let s = v.as_slice();\n    *s.index(0).a += 1;", False)
     add("readonly", "no write through a shared reference", "    let mut v = make();\n    let r = v.index(0);\n    *r.a = 5;", False)
     add("readonly", "no mutable view from a shared borrow of the vector", "    let v = make();\n    let r = &v;\n    let s = r.as_mut_slice();", False)
+    # canonical idioms of the std slice API that rely on results carrying the view's own lifetime, not the borrow of the view value
+    add("idiom", "walk a shared slice with split_first", "    let v = make();\n    let mut rest = v.as_slice(); let mut n = 0u32;\n    while let Some((h, t)) = rest.split_first() { n += *h.a; rest = t; }\n    use_(&n);", True)
+    add("idiom", "walk a shared slice with split_last", "    let v = make();\n    let mut rest = v.as_slice(); let mut n = 0u32;\n    while let Some((h, t)) = rest.split_last() { n += *h.a; rest = t; }\n    use_(&n);", True)
+    add("idiom", "first() of a temporary view", "    let v = make();\n    let f = v.as_slice().first();\n    let l = v.as_slice().last();\n    use_(&f); use_(&l);", True)
+    add("idiom", "split_at of a temporary view", "    let v = make();\n    let (l, r) = v.as_slice().split_at(1);\n    use_(&l); use_(&r);", True)
+    add("idiom", "halves outlive the view value", "    let v = make();\n    let (l, r) = { let s = v.as_slice(); s.split_at(1) };\n    use_(&l); use_(&r);", True)
+    add("idiom", "into_iter of a temporary view", "    let v = make();\n    let it = v.as_slice().into_iter();\n    for r in it { use_(&r); }", True)
+    add("idiom", "walk a mutable slice with split_first_mut", "    let mut v = make();\n    let mut rest = v.as_mut_slice();\n    while let Some((h, t)) = rest.split_first_mut() { *h.a += 1; rest = t; }", True)
+    add("idiom", "walk a mutable slice with split_last_mut", "    let mut v = make();\n    let mut rest = v.as_mut_slice();\n    while let Some((h, t)) = rest.split_last_mut() { *h.a += 1; rest = t; }", True)
+    add("idiom", "recursive halving of a mutable slice", "    fn bump(s: PSliceMut) { if s.len() <= 1 { for r in s.into_iter() { *r.a += 1; } } else { let m = s.len() / 2; let (l, r) = s.split_at_mut(m); bump(l); bump(r); } }\n    let mut v = make();\n    bump(v.as_mut_slice());", True)
+    add("idiom", "elements of a mutable iterator are independent", "    let mut v = make();\n    let mut it = v.iter_mut();\n    let a = it.next(); let b = it.next();\n    use_(&a); use_(&b);", True)
+    add("idiom", "collect references from an iterator", "    let v = make();\n    let refs: Vec<PRef> = v.iter().collect();\n    use_(&refs);", True)
     # covariance in the lifetime
     # (the iterators of a struct with a nested field name the nested iterator through an associated type of SoAIter<'a>,
     #  which makes them invariant; the property asks covariance of views and references only)
